@@ -120,7 +120,8 @@ Record bstate := {
   b_nsstack : list decls;           (* NameIdBuilder.namespace_stack, top first *)
   b_eb : option ebuild;             (* element_builder *)
   b_ids : list (str * N);           (* id_nodes / seen_ids, latest first *)
-  b_spans : spaninfo
+  b_spans : spaninfo;
+  b_open : list str                 (* open_prefixes: the prefix each open element was written with, innermost first *)
 }.
 
 Definition s_xmlns : str := [120; 109; 108; 110; 115].
@@ -148,20 +149,20 @@ Section WithBuiltins.
 
   Definition with_tabs (st : bstate) (t : tables) : bstate :=
     {| b_tabs := t; b_next := b_next st; b_stack := b_stack st; b_nsstack := b_nsstack st; b_eb := b_eb st;
-       b_ids := b_ids st; b_spans := b_spans st |}.
+       b_ids := b_ids st; b_spans := b_spans st; b_open := b_open st |}.
   Definition with_spans (st : bstate) (m : spaninfo) : bstate :=
     {| b_tabs := b_tabs st; b_next := b_next st; b_stack := b_stack st; b_nsstack := b_nsstack st; b_eb := b_eb st;
-       b_ids := b_ids st; b_spans := m |}.
+       b_ids := b_ids st; b_spans := m; b_open := b_open st |}.
   Definition with_eb (st : bstate) (e : option ebuild) : bstate :=
     {| b_tabs := b_tabs st; b_next := b_next st; b_stack := b_stack st; b_nsstack := b_nsstack st; b_eb := e;
-       b_ids := b_ids st; b_spans := b_spans st |}.
+       b_ids := b_ids st; b_spans := b_spans st; b_open := b_open st |}.
 
   (* DocumentBuilder::new *)
   Definition builder_new (t : tables) (next : N) : bstate :=
     {| b_tabs := t; b_next := next + 1;
        b_stack := [ {| on_slot := next; on_val := VDocument; on_kids := FNil |} ];
        b_nsstack := [ [(ep, nn)]; [(b_xml_prefix bi, b_xml_namespace bi)] ];
-       b_eb := None; b_ids := []; b_spans := [] |}.
+       b_eb := None; b_ids := []; b_spans := []; b_open := [] |}.
 
   (* DocumentBuilder::add: a new node appended to the current node; returns its slot *)
   Definition add_node (st : bstate) (v : value) : bres (bstate * N) :=
@@ -171,7 +172,7 @@ Section WithBuiltins.
         let n := b_next st in
         BOk ({| b_tabs := b_tabs st; b_next := n + 1;
                 b_stack := {| on_slot := on_slot cur; on_val := on_val cur; on_kids := FCons n v FNil (on_kids cur) |} :: rest;
-                b_nsstack := b_nsstack st; b_eb := b_eb st; b_ids := b_ids st; b_spans := b_spans st |}, n)
+                b_nsstack := b_nsstack st; b_eb := b_eb st; b_ids := b_ids st; b_spans := b_spans st; b_open := b_open st |}, n)
     end.
 
   (* NameIdBuilder::name_id_with_prefix_id: innermost entry first, within an entry the last declaration first *)
@@ -254,7 +255,7 @@ Section WithBuiltins.
                        if existsb (fun x => str_eqb (fst x) (ab_value a)) (b_ids st1)
                        then BErr (PEDuplicateId (ab_value a) (ab_value_span a))
                        else BOk {| b_tabs := b_tabs st1; b_next := b_next st1; b_stack := b_stack st1; b_nsstack := b_nsstack st1;
-                                   b_eb := b_eb st1; b_ids := (ab_value a, node) :: b_ids st1; b_spans := b_spans st1 |}
+                                   b_eb := b_eb st1; b_ids := (ab_value a, node) :: b_ids st1; b_spans := b_spans st1; b_open := b_open st1 |}
                      else BOk st1);
           do (st3, _) <- add_node st2 (VAttribute nid (ab_value a));
           open_attributes st3 node l' (done ++ [(nid, ab_name_span a, ab_value_span a)])
@@ -272,13 +273,13 @@ Section WithBuiltins.
     | None => BPanic
     | Some eb =>
         let st0 := {| b_tabs := b_tabs st; b_next := b_next st; b_stack := b_stack st;
-                      b_nsstack := eb_ns eb :: b_nsstack st; b_eb := None; b_ids := b_ids st; b_spans := b_spans st |} in
+                      b_nsstack := eb_ns eb :: b_nsstack st; b_eb := None; b_ids := b_ids st; b_spans := b_spans st; b_open := b_open st |} in
         do (st1, nid) <- element_name_id st0 (eb_prefix eb) (eb_name eb) (eb_prefix_span eb);
         (* add: the element becomes the current node *)
         let node := b_next st1 in
         let st2 := {| b_tabs := b_tabs st1; b_next := node + 1;
                       b_stack := {| on_slot := node; on_val := VElement nid; on_kids := FNil |} :: b_stack st1;
-                      b_nsstack := b_nsstack st1; b_eb := None; b_ids := b_ids st1; b_spans := b_spans st1 |} in
+                      b_nsstack := b_nsstack st1; b_eb := None; b_ids := b_ids st1; b_spans := b_spans st1; b_open := eb_prefix eb :: b_open st1 |} in
         do st3 <- add_namespace_nodes st2 (eb_ns eb);
         do (st4, aspans) <- open_attributes st3 node (eb_attrs eb) [];
         let m1 := span_add (b_spans st4) (KElStart node) (eb_span eb) in
@@ -295,7 +296,7 @@ Section WithBuiltins.
                 b_stack := {| on_slot := on_slot par; on_val := on_val par;
                               on_kids := FCons (on_slot cur) (on_val cur) (Zipper.frev (on_kids cur)) (on_kids par) |} :: rest;
                 b_nsstack := if pop_ns then tl (b_nsstack st) else b_nsstack st;
-                b_eb := b_eb st; b_ids := b_ids st; b_spans := b_spans st |}, on_slot cur)
+                b_eb := b_eb st; b_ids := b_ids st; b_spans := b_spans st; b_open := if pop_ns then tl (b_open st) else b_open st |}, on_slot cur)
     | _ => BPanic                                (* .expect("Cannot close document node") *)
     end.
 
@@ -314,7 +315,8 @@ Section WithBuiltins.
     do (st1, nid) <- element_name_id st (ss_text prefix) (ss_text local) (ss_span prefix);
     match current_is_element st1 with
     | Some cur_name =>
-        if N.eqb cur_name nid then pop_node st1 true
+        (* the end tag has to repeat the name as the start tag wrote it: same expanded name AND same prefix *)
+        if N.eqb cur_name nid && (match b_open st1 with p :: _ => str_eqb p (ss_text prefix) | [] => false end) then pop_node st1 true
         else BErr (PEInvalidCloseTag (ss_text prefix) (ss_text local) (from_prefix_name prefix local))
     | None => BErr (PEInvalidCloseTag (ss_text prefix) (ss_text local) (from_prefix_name prefix local))
     end.
@@ -327,7 +329,7 @@ Section WithBuiltins.
         | FCons i (VText old) k r =>
             BOk ({| b_tabs := b_tabs st; b_next := b_next st;
                     b_stack := {| on_slot := on_slot cur; on_val := on_val cur; on_kids := FCons i (VText (old ++ content)) k r |} :: rest;
-                    b_nsstack := b_nsstack st; b_eb := b_eb st; b_ids := b_ids st; b_spans := b_spans st |}, i)
+                    b_nsstack := b_nsstack st; b_eb := b_eb st; b_ids := b_ids st; b_spans := b_spans st; b_open := b_open st |}, i)
         | _ => add_node st (VText content)
         end
     | [] => BPanic
